@@ -73,11 +73,27 @@ def mod(name):
     return importlib.import_module("cspuz.puzzle." + name)
 
 
+def big_layouts(ncells, default, alphabet):
+    """A few layouts for boards far beyond the exhaustive bound: empty, dense, sparse, last cell only, long blank runs."""
+    L = len(alphabet)
+    return [
+        [default] * ncells,
+        [alphabet[i % L] for i in range(ncells)],
+        [alphabet[(i // 7) % L] if i % 7 == 0 else default for i in range(ncells)],
+        [default] * (ncells - 1) + [alphabet[-1]],
+        [alphabet[0]] + [default] * (ncells - 2) + [alphabet[1 % L]],
+        [alphabet[(i // 41) % L] if i % 41 == 40 else default for i in range(ncells)],
+    ]
+
+
 def run_grid_codec(part, cname, h, w, cap):
     modname, urlname, ser, de, default, alphabet, ref = GRID_CODECS[cname]
     m = mod(modname)
     serialize, deserialize = getattr(m, ser), getattr(m, de)
-    lays, k = layouts(h * w, default, alphabet, cap)
+    if cap == "big":
+        lays, k = big_layouts(h * w, default, alphabet), -1
+    else:
+        lays, k = layouts(h * w, default, alphabet, cap)
     part.add("bounds", (cname, h, w, k))
     for cells in lays:
         problem = [cells[y * w : (y + 1) * w] for y in range(h)]
@@ -132,6 +148,18 @@ def run_grid_codec(part, cname, h, w, cap):
 
 def partitions(h, w):
     n = h * w
+    if n > 12:
+        # big boards: a few structured partitions instead of all of them
+        yield [[(y, x) for y in range(h) for x in range(w)]]
+        yield [[(y, x)] for y in range(h) for x in range(w)]
+        yield [[(y, x) for x in range(w)] for y in range(h)]
+        yield [[(y, x) for y in range(h)] for x in range(w)]
+        blocks = {}
+        for y in range(h):
+            for x in range(w):
+                blocks.setdefault((y // 2, x // 3), []).append((y, x))
+        yield list(blocks.values())
+        return
     for part in graphref.connected_partitions(n, graphref.grid_edges(h, w)):
         yield [[divmod(c, w) for c in blk] for blk in part]
 
@@ -380,6 +408,12 @@ def main(tier, seed, only=None):
                 shards.append(("rooms", h, w, 300 if tier == "quick" else 3000))
     for h, w in [(h, w) for h in (1, 2, 3) for w in (1, 2, 3)] + ([(2, 4), (4, 3)] if tier != "quick" else []):
         shards.append(("compass", h, w))
+    # scale family: boards with more than 256 cells / rows wider than 32 (a few structured problems each)
+    for h, w in ([(17, 17), (2, 40), (1, 300)] if tier == "quick" else [(17, 17), (16, 16), (2, 40), (40, 2), (1, 300), (300, 1), (33, 33), (20, 36)]):
+        for cname in GRID_CODECS:
+            shards.append(("grid", cname, h, w, "big"))
+        if h * w <= 700 and h > 1 and w > 1:
+            shards.append(("rooms", h, w, 40))
     if only:
         shards = [s for s in shards if s[0] == only or (len(s) > 1 and s[1] == only)]
     run = harness.Run(
@@ -388,7 +422,8 @@ def main(tier, seed, only=None):
         "cells over the module's alphabet + boundary values (15/16/255/256/4095, yajilin '??' and counts 0..255), k maximal under a cap of %d "
         "layouts per board (k per board in coverage.bounds), plus full boards; room codecs lits, norinori, heyawake (room and rectangle "
         "forms), star_battle, aquarium on every partition of every board with <= %d cells into connected rooms, in canonical and reversed "
-        "order; compass with one compass at every cell x all 4^4 arm vectors over {-1,0,2,16} and pairs at all position pairs.  Checks: "
+        "order; scale family: boards 17x17, 2x40, 1x300 (thorough 33x33, 20x36, 300x1) with empty / dense / sparse / last-cell layouts and structured room "
+        "partitions (one room, single cells, stripes, 2x3 blocks); compass with one compass at every cell x all 4^4 arm vectors over {-1,0,2,16} and pairs at all position pairs.  Checks: "
         "round trip incl. dimensions, URL = https://puzz.link/p?<name>/<w>/<h>/<body>, independent pzpr decoder agrees, legacy "
         "encode_array / encode_grid_segmentation == combinator text." % ("" if tier == "quick" else " + 1x5, 2x4, 4x4, 1x23, 1x41 and transposes", cap, maxcells),
     )
@@ -411,7 +446,7 @@ def replay(case):
     c = case.get("codec")
     h, w = case.get("height"), case.get("width")
     if c in GRID_CODECS:
-        run_grid_codec(part, c, h, w, 40000 if h * w <= 9 else 2000)
+        run_grid_codec(part, c, h, w, "big" if h * w > 50 else (40000 if h * w <= 9 else 2000))
         mine = [v for v in part.violations if harness.jsonable(v.case.get("problem")) == case.get("problem")]
     elif c == "compass":
         run_compass(part, h, w)
